@@ -92,6 +92,7 @@ PROOF_UNITS = {
                                 ('NumberOfNodes', ('DynGraph',)), ('NumberOfNodes', ('DynDiGraph',)), ('Size', ('DynGraph',)), ('Size', ('DynDiGraph',)),
                                 ('NumberOfInteractionsAll', ('DynGraph',)), ('NumberOfInteractionsAll', ('DynDiGraph',)))
               for m in ('removal', 'accum') for t in ('int', 'none')]
+           + [('contracts.neighbours', 'IsEmpty', (cls,), {'mode': m, 't': 'none'}) for cls in ('DynGraph', 'DynDiGraph') for m in ('removal', 'accum')]
            + [('contracts.neighbours', 'GetNodeSnapshots', (cls,), {'mode': m, 't': 'none'}) for cls in ('DynGraph', 'DynDiGraph') for m in ('removal', 'accum')],
     'C09': [('contracts.writers', 'GenerateSnapshots', (cls,), {}) for cls in ('DynGraph', 'DynDiGraph')]
            + [('contracts.parsers', 'ParseSnapshots', (cls,), {}) for cls in ('DynGraph', 'DynDiGraph')]
